@@ -1,4 +1,9 @@
 extra={
+ "C17":{"note":"Trusted: testing/synctest, the harness' own YAML writer (reflection over yaml tags) and validity predicate. File modification times are real, not simulated. SIGUSR1-triggered reloads are not exercised. Part (b) is plain input generation."},
+ "C18":{"note":"Trusted: /bin/sh, od, tr, printf of the sandbox; the kernel schedules the children, so a replay reproduces the scenario, not the exact timing. Process-level environment is set by the harness in its own process.",
+        "technique":"deterministic simulation with fault injection (seeded scheduler at hook points) around real child processes; oracle over the captured output"},
+ "C19":{"note":"Trusted: coreutils of the sandbox; replay reproduces the scenario, not kernel timing. Output that is not valid UTF-8 is not generated: the JSON log API cannot carry it.",
+        "technique":"deterministic simulation with fault injection (seeded scheduler at hook points) around real child processes; oracle over the captured output"},
  "C13":{"note":"Trusted: the Go race detector (happens-before based; bounded per-location access history, so a report for a given schedule is reproducible in most but not all fresh processes - non-reproducible reports are dropped and counted), testing/synctest. WaitGroup Add/Wait annotations of the detector are counted separately, not reported. No API-level oracle runs in this configuration.",
         "technique":"deterministic simulation with fault injection: seeded cooperative scheduler with simulator hand-offs hidden from the Go race detector (runtime.RaceDisable), lock-holder overlap through parked callbacks, race reports as replayable oracle"},
  "C09":{"text_suffix":" B2 is exhaustive for its sequences; B1 is sampling.",
